@@ -73,8 +73,13 @@ func (m *hostsIPSetManager) OnUpdate(protoBufMsg any) {
 	switch msg := protoBufMsg.(type) {
 	case *proto.HostMetadataUpdate:
 		if (m.ipVersion == 4 && msg.Ipv4Addr == "") || (m.ipVersion == 6 && msg.Ipv6Addr == "") {
-			// Skip since the update is for a mismatched IP version
+			// Skip since the update is for a mismatched IP version.  If we knew an address for
+			// this host, it no longer has it.
 			m.logCtx.WithField("msg", msg).Debug("Skipping mismatched IP version update")
+			if _, ok := m.activeHostnameToIP[msg.Hostname]; ok {
+				delete(m.activeHostnameToIP, msg.Hostname)
+				m.ipSetDirty = true
+			}
 			return
 		}
 
